@@ -86,7 +86,8 @@ def hand_loop(rng):
     """A hand-threaded loop in the shape the lowering produces, with the variations the guards look at."""
     two_fields = rng.random() < 0.6
     int_iter = rng.random() < 0.5                  # loop-carried integer feeding the setup
-    chain = rng.choice(["cast", "add", "mul_add", "const", "opaque_pure", "impure", "outer"])
+    chain = rng.choice(["cast", "add", "add_rev", "mul_add", "const", "opaque_pure", "impure", "outer", "add_rev"])
+    double_launch = rng.random() < 0.15            # the new state is launched twice: three uses of one state
     launch_first = rng.random() < 0.12             # a launch in front of the setup (guard)
     n_launch = rng.choice([1, 1, 2, 3])
     post = rng.choice(["none", "launch", "setup_all_launch", "setup_part_launch", "call_launch", "launch", "if_launch"])
@@ -109,6 +110,9 @@ def hand_loop(rng):
     val = "%w"
     if chain == "add":
         B.append("%w2 = arith.addi %w, %x : i32")
+        val = "%w2"
+    elif chain == "add_rev":
+        B.append("%w2 = arith.addi %x, %w : i32")     # the loop-dependent value is the SECOND operand
         val = "%w2"
     elif chain == "mul_add":
         B += ["%w2 = arith.muli %w, %v : i32", "%w3 = arith.addi %w2, %w : i32"]
@@ -136,6 +140,8 @@ def hand_loop(rng):
             B.append(f'%sx{j} = accfg.setup "acc" from {cur} to ("A" = {rng.choice(["%v", "%x", "%w"])} : i32) : {ST}')
             cur = f"%sx{j}"
         B += [_launch(f"%t{j}", cur, lv="%x" if rng.random() < 0.3 else None), _await(f"%t{j}")]
+        if double_launch and j == 0:
+            B += [_launch("%td", cur), _await("%td")]
     if int_iter:
         B.append("%k1 = arith.addi %k0, %v : i32")
     B.append(f"scf.yield {cur}" + (", %k1" if int_iter else "") + f" : {ST}" + (", i32" if int_iter else ""))
